@@ -219,3 +219,12 @@
                                :pattern ((select (select (Mem h) (select (Larr h0) r)) j))))))
      :pattern ((select (Kind h0) r)))))
 (define-fun even ((x Int)) Bool (= (mod x 2) 0))
+; substrings
+(assert (forall ((s Str) (a Int) (b Int)) (! (=> (and (<= 0 a) (<= a b) (<= b (slen s))) (= (slen (sub s a b)) (- b a))) :pattern ((sub s a b)))))
+(assert (forall ((s Str) (a Int) (b Int) (k Int)) (! (=> (and (<= 0 a) (<= a b) (<= b (slen s)) (<= 0 k) (< k (- b a))) (= (at (sub s a b) k) (at s (+ a k)))) :pattern ((at (sub s a b) k)))))
+; nlcount(s, a, b): number of newline bytes in s[a:b)  (one-step unfolding from the right)
+(declare-fun nlcount (Str Int Int) Int)
+(assert (forall ((s Str) (a Int) (b Int)) (! (=> (<= b a) (= (nlcount s a b) 0)) :pattern ((nlcount s a b)))))
+(assert (forall ((s Str) (a Int) (b Int)) (! (=> (< a b) (= (nlcount s a b) (+ (nlcount s a (- b 1)) (ite (= (at s (- b 1)) 10) 1 0)))) :pattern ((nlcount s a b)))))
+; resource assumption: no string has 2^63-2 or more bytes
+(assert (forall ((s Str)) (! (< (slen s) (- MAXINT 1)) :pattern ((slen s)))))
